@@ -182,6 +182,11 @@ def sample_registry(trace):
     def resample(I, args, kwargs, node):
         s = args[0]
         trace.append(("resample", s.fields["iteration"]))
+        if s.fields["_init_consumes"] == 1:
+            # precondition of ConditionalSMCSampler._resample_swarm (it reads constrained_path[iteration + 1], a list of T + 1 items)
+            it = I.to_num(s.fields["iteration"])
+            I.P.check("C19.resample-precondition[%s]" % I.site(None), I.P.z(it) < I.P.z(s.fields["num_iterations"]),
+                      "callers establish iteration < num_iterations before the conditional sampler resamples (else IndexError on the retained path)")
 
     def update(I, args, kwargs, node):
         s = args[0]
